@@ -33,16 +33,15 @@ def tkey(t):
 
 
 def mk_bin(op, a, b):
-    base = op.split('.')[0]
+    base, _, sfx = op.partition('.')
     if base.endswith('WithOverflow'):
         core = base[:-len('WithOverflow')]
         return ('agg', 'tuple', (mk_bin(core, a, b), ('ovf', core, a, b)), None)
     if base.endswith('Unchecked'):
-        op = base[:-len('Unchecked')]
-        base = op
-    if op in FLIP:
-        op, a, b = FLIP[op], b, a
-        base = op
+        base = base[:-len('Unchecked')]
+    if base in FLIP:
+        base, a, b = FLIP[base], b, a
+    op = base + ('.' + sfx if sfx else '')
     if is_int(a) and is_int(b):
         x, y = a[1], b[1]
         try:
@@ -70,7 +69,7 @@ def mk_bin(op, a, b):
                 return mk_int(x | y)
         except Exception:
             pass
-    if op in COMMUTATIVE and tkey(a) > tkey(b):
+    if (op in COMMUTATIVE or base in ('Eq', 'Ne')) and tkey(a) > tkey(b):
         a, b = b, a
     return ('bin', op, a, b)
 
@@ -80,6 +79,7 @@ def mk_not(a):
         return mk_int(int(not a[1]))
     if a[0] == 'bin' and a[1] in NEGATE:
         return mk_bin(NEGATE[a[1]], a[2], a[3])
+    # float comparisons ('.f') are NOT negated into their complement: !(x >= 0) differs from x < 0 for NaN
     if a[0] == 'un' and a[1] == 'Not':
         return a[2]
     return ('un', 'Not', a)
@@ -199,6 +199,7 @@ IDENTITY_CALLS = {
 }
 VIEW_CALLS = {'core::convert::AsRef::as_ref', 'core::convert::AsMut::as_mut', 'core::ops::Deref::deref',
               'core::ops::DerefMut::deref_mut', 'core::borrow::Borrow::borrow', 'core::borrow::BorrowMut::borrow_mut'}
+FLOAT_TYPES = ('f32', 'f64', 'F')      # `F` is the crate's naming convention for a generic float parameter
 OP_TRAITS = {
     'core::ops::Add::add': 'Add', 'core::ops::Sub::sub': 'Sub', 'core::ops::Mul::mul': 'Mul',
     'core::ops::Div::div': 'Div', 'core::ops::Rem::rem': 'Rem', 'core::ops::Shl::shl': 'Shl',
@@ -500,7 +501,10 @@ class Evaluator:
                     return ('ref', path, bool(rv['mut']), v[3])   # reborrow of a slice view stays a view
             return ('ref', path, bool(rv['mut']))
         if k == 'bin':
-            return mk_bin(rv['op'], self.operand(st, rv['l']), self.operand(st, rv['r']))
+            bop = rv['op']
+            if bop in ('Lt', 'Le', 'Gt', 'Ge', 'Eq', 'Ne') and self._operand_is_float(rv['l']):
+                bop += '.f'
+            return mk_bin(bop, self.operand(st, rv['l']), self.operand(st, rv['r']))
         if k == 'un':
             x = self.operand(st, rv['x'])
             if rv['op'] == 'Not':
@@ -557,7 +561,11 @@ class Evaluator:
             elif d in OP_TRAITS and len(args) == 2:
                 res = mk_bin(OP_TRAITS[d], self.deref_val(st, args[0]), self.deref_val(st, args[1]))
             elif d in CMP_TRAITS and len(args) == 2:
-                res = mk_bin(CMP_TRAITS[d], self.deref_val(st, args[0]), self.deref_val(st, args[1]))
+                cop = CMP_TRAITS[d]
+                sty = self.F.ty_s(c['args'][0]['ty']) if c['args'] and 'ty' in c['args'][0] else ''
+                if sty in FLOAT_TYPES:
+                    cop += '.f'
+                res = mk_bin(cop, self.deref_val(st, args[0]), self.deref_val(st, args[1]))
             elif d in REF_OPS and len(args) == 2:
                 res = mk_bin(REF_OPS[d], self.deref_val(st, args[0]), self.deref_val(st, args[1]))
             elif d.startswith('core::num::<impl ') and nm in ('wrapping_add', 'wrapping_sub', 'wrapping_mul') and len(args) == 2:
@@ -806,6 +814,13 @@ class Evaluator:
                     continue
                 raise RuntimeError('unknown terminator ' + k)
         return results
+
+    def _operand_is_float(self, o):
+        if o['k'] in ('copy', 'move') and not o['place']['p']:
+            return self.F.ty(self.body.local_ty(o['place']['l'])).get('k') == 'float'
+        if o['k'] == 'const':
+            return bool(o.get('float'))
+        return False
 
     def _is_bool_operand(self, o):
         if o['k'] in ('copy', 'move') and not o['place']['p']:
